@@ -1,4 +1,671 @@
-//! C15 — not built yet.
+//! C15 — PRF and PRNG are deterministic, in-domain and unbiased.
+//! Correspondence of Model/Prf.v with random.rs and the evaluator's PRF / PermutationFromPRF /
+//! Random / RandomPermutation arms.  AES-128 blocks are computed here with the `aes` crate
+//! directly (never through random.rs) and shipped as the finite table that instantiates the
+//! model's Section variable `aes` in each case.  Native oracle: purity across evaluator instances,
+//! call orders and repetitions, valid encodings (check_type, flushed bits), permutation validity,
+//! range of bounded draws, replay from a seed.
+use crate::coqfmt::*;
+use crate::gen::*;
 use crate::out::Out;
-pub const HEADER: &str = "From CC Require Import Base.Prelude.";
-pub fn run(_tier: &str, _seed: u64, _out: &mut Out) {}
+use crate::rng::Rng;
+use aes::cipher::{generic_array::GenericArray, BlockEncrypt, KeyInit};
+use aes::Aes128;
+use ciphercore_base::data_types::*;
+use ciphercore_base::data_values::Value;
+use ciphercore_base::evaluators::simple_evaluator::SimpleEvaluator;
+use ciphercore_base::evaluators::Evaluator;
+use ciphercore_base::graphs::{create_context, Node, Operation};
+use ciphercore_base::random::PRNG;
+use serde_json::json;
+use std::collections::{BTreeMap, BTreeSet};
+use std::panic::AssertUnwindSafe;
+
+pub const HEADER: &str =
+    "From CC Require Import Base.Prelude Base.Scalar Base.Ty Model.Bytes Model.Prf.";
+
+const FUEL: u32 = 64;
+
+// ------------------------------------------------------------------------------------ AES table
+/// AES-128 of one block, both read as little-endian 128-bit numbers (the `aes` crate, directly).
+fn aes_block(key: &[u8; 16], ctr: u128) -> u128 {
+    let c = Aes128::new(GenericArray::from_slice(key));
+    let mut b = GenericArray::clone_from_slice(&ctr.to_le_bytes());
+    c.encrypt_block(&mut b);
+    let mut o = [0u8; 16];
+    o.copy_from_slice(b.as_slice());
+    u128::from_le_bytes(o)
+}
+
+/// Number of blocks a session started with `initial` buffer bytes has produced once `bytes` bytes
+/// are available (whole batches: 16-byte multiples doubling up to 512).
+fn blocks_for(bytes: u64, initial: u64) -> u64 {
+    let mut size = (initial + 15) / 16 * 16;
+    if size == 0 {
+        return 0;
+    }
+    let mut have = 0u64;
+    while have < bytes {
+        have += size;
+        if size < 512 {
+            size = u64::min(512, size * 2);
+        }
+    }
+    have / 16
+}
+
+/// One table entry: (key, first counter, consecutive blocks).
+fn table_entry(key: &[u8; 16], iv: u64, nblocks: u64) -> String {
+    let base = (iv as u128) << 64;
+    let outs: Vec<String> = (0..nblocks as u128).map(|j| aes_block(key, base.wrapping_add(j)).to_string()).collect();
+    format!("({}, {}, [{}])", u128::from_le_bytes(*key), base, outs.join("; "))
+}
+fn table(entries: &[String]) -> String {
+    format!("(mk_aes [{}])", entries.join("; "))
+}
+
+// ------------------------------------------------------------------------------------ helpers
+fn key_coq(k: &[u8]) -> String {
+    list_u8(k)
+}
+fn total_bytes(v: &Value) -> u64 {
+    v.access(|b| Ok(b.len() as u64), |vs| Ok(vs.iter().map(total_bytes).sum())).unwrap()
+}
+/// Independent statement of "valid encoding with unused bits zero": byte length ceil(bits/8) at
+/// every leaf, the bits above the type's size in the last byte are zero, vectors have the right
+/// arity.
+fn in_domain(v: &Value, t: &Type) -> bool {
+    match t {
+        Type::Scalar(_) | Type::Array(_, _) => {
+            let bits: u64 = match t {
+                Type::Scalar(st) => st.size_in_bits(),
+                Type::Array(sh, st) => sh.iter().product::<u64>() * st.size_in_bits(),
+                _ => unreachable!(),
+            };
+            v.access(
+                |b| {
+                    let nbytes = (bits + 7) / 8;
+                    let mut ok = b.len() as u64 == nbytes;
+                    if ok && bits % 8 != 0 {
+                        ok = (b[b.len() - 1] as u32) >> (bits % 8) == 0;
+                    }
+                    Ok(ok)
+                },
+                |_| Ok(false),
+            )
+            .unwrap()
+        }
+        Type::Vector(n, t1) => v
+            .access(|_| Ok(false), |vs| Ok(vs.len() as u64 == *n && vs.iter().all(|c| in_domain(c, t1))))
+            .unwrap(),
+        Type::Tuple(ts) => v
+            .access(|_| Ok(false), |vs| Ok(vs.len() == ts.len() && vs.iter().zip(ts.iter()).all(|(c, t)| in_domain(c, t))))
+            .unwrap(),
+        Type::NamedTuple(fs) => v
+            .access(|_| Ok(false), |vs| Ok(vs.len() == fs.len() && vs.iter().zip(fs.iter()).all(|(c, (_, t))| in_domain(c, t))))
+            .unwrap(),
+    }
+}
+fn is_perm(v: &Value, n: u64) -> bool {
+    match v.to_flattened_array_u64(array_type(vec![n], UINT64)) {
+        Ok(mut a) => {
+            a.sort_unstable();
+            a.len() as u64 == n && a.iter().enumerate().all(|(i, x)| *x == i as u64)
+        }
+        Err(_) => false,
+    }
+}
+fn has_ragged_leaf(t: &Type) -> bool {
+    match t {
+        Type::Scalar(st) => st.size_in_bits() % 8 != 0,
+        Type::Array(sh, st) => (sh.iter().product::<u64>() * st.size_in_bits()) % 8 != 0,
+        Type::Vector(n, t1) => *n > 0 && has_ragged_leaf(t1),
+        Type::Tuple(ts) => ts.iter().any(|t| has_ragged_leaf(t)),
+        Type::NamedTuple(fs) => fs.iter().any(|(_, t)| has_ragged_leaf(t)),
+    }
+}
+fn is_nested(t: &Type) -> bool {
+    !matches!(t, Type::Scalar(_) | Type::Array(_, _))
+}
+
+#[derive(Clone, Debug, PartialEq, Eq, PartialOrd, Ord)]
+enum Call {
+    Prf(Vec<u8>, u64, String, usize), // key value bytes, iv, coq type, index into the type pool
+    Perm(Vec<u8>, u64, u64),
+}
+
+/// PRF types: generic random trees plus the classes named in the property (ragged bit arrays,
+/// sizes around the 64 / 192 / 448 / 960-byte buffer refills, nested).
+fn prf_type(rng: &mut Rng, big: bool) -> Type {
+    match rng.below(if big { 12 } else { 9 }) {
+        0 => array_type(vec![1 + rng.below(70)], BIT),
+        1 => array_type(vec![1 + rng.below(5), 1 + rng.below(9)], BIT),
+        2 => scalar_type(*rng.pick(&ALL_ST)),
+        3 => array_type(vec![*rng.pick(&[63u64, 64, 65, 66, 80])], UINT8),
+        4 => array_type(vec![*rng.pick(&[3u64, 8, 9, 24, 25])], *rng.pick(&[UINT64, INT32, UINT128, INT16])),
+        5 => tuple_type(vec![
+            array_type(vec![1 + rng.below(20)], BIT),
+            array_type(vec![*rng.pick(&[7u64, 8, 9])], UINT64),
+            scalar_type(BIT),
+            vector_type(1 + rng.below(3), array_type(vec![3, 3], BIT)),
+        ]),
+        6 | 7 => random_type(rng, 2),
+        8 => vector_type(1 + rng.below(5), tuple_type(vec![scalar_type(BIT), array_type(vec![1 + rng.below(12)], *rng.pick(&ALL_ST))])),
+        9 => array_type(vec![*rng.pick(&[191u64, 192, 193, 200])], UINT8),
+        10 => array_type(vec![*rng.pick(&[56u64, 57, 70])], UINT64),
+        _ => array_type(vec![*rng.pick(&[120u64, 121, 150])], UINT64),
+    }
+}
+fn pick_iv(rng: &mut Rng) -> u64 {
+    match rng.below(6) {
+        0 => 0,
+        1 => 1,
+        2 => u64::MAX,
+        3 => 1u64 << 63,
+        4 => rng.below(1000),
+        _ => rng.next(),
+    }
+}
+fn random_key(rng: &mut Rng) -> [u8; 16] {
+    let mut k = [0u8; 16];
+    match rng.below(5) {
+        0 => {}
+        1 => k = [0xff; 16],
+        _ => {
+            for b in k.iter_mut() {
+                *b = rng.next() as u8;
+            }
+        }
+    }
+    k
+}
+fn key16(k: &[u8]) -> Option<[u8; 16]> {
+    if k.len() < 16 {
+        return None;
+    }
+    let mut a = [0u8; 16];
+    a.copy_from_slice(&k[..16]);
+    Some(a)
+}
+
+/// Bytes a permutation of n consumes without any rejection (need_bytes per draw), computed from
+/// the documented rule "one byte more than the modulus needs".
+fn perm_bytes_no_reject(n: u64) -> u64 {
+    (2..=n).map(|m| ((64 - (m - 1).leading_zeros() as u64) + 7) / 8 + 1).sum()
+}
+
+struct Nodes {
+    _ctx: ciphercore_base::graphs::Context,
+    g: ciphercore_base::graphs::Graph,
+    key: Node,
+}
+impl Nodes {
+    fn new() -> Self {
+        let c = create_context().unwrap();
+        let g = c.create_graph().unwrap();
+        let key = g.input(array_type(vec![128], BIT)).unwrap();
+        Nodes { _ctx: c, g, key }
+    }
+}
+
+fn eval(ev: &mut SimpleEvaluator, node: &Node, deps: Vec<Value>) -> Outcome<Value> {
+    let node = node.clone();
+    observe(AssertUnwindSafe(move || ev.evaluate_node(node, deps)))
+}
+
+// ------------------------------------------------------------------------------------ PRF part
+fn prf_round(rng: &mut Rng, out: &mut Out, big: bool, emit_cases: bool) {
+    let nodes = Nodes::new();
+    // pools
+    let keys: Vec<[u8; 16]> = (0..2 + rng.below(2)).map(|_| random_key(rng)).collect();
+    let ivs: Vec<u64> = (0..3).map(|_| pick_iv(rng)).collect();
+    let types: Vec<Type> = (0..4).map(|_| prf_type(rng, big)).collect();
+    let perm_ns: Vec<u64> = (0..3)
+        .map(|_| if big { *rng.pick(&[255u64, 256, 257, 258, 300, 600]) } else { *rng.pick(&[1u64, 2, 3, 4, 5, 8, 17, 64, 100]) })
+        .collect();
+    // node per distinct call (type inference may reject a type: skip it)
+    let mut calls: Vec<Call> = vec![];
+    let ncalls = 10 + rng.below(16);
+    for _ in 0..ncalls {
+        let k = rng.pick(&keys).to_vec();
+        let iv = *rng.pick(&ivs);
+        if rng.chance(1, 4) {
+            calls.push(Call::Perm(k, iv, *rng.pick(&perm_ns)));
+        } else {
+            let ti = rng.below(types.len() as u64) as usize;
+            calls.push(Call::Prf(k, iv, ty(&types[ti]), ti));
+        }
+    }
+    // a few malformed keys (evaluate_node does not type-check its arguments): longer than 16
+    // bytes (cache keyed by the whole vector, AES by the first 16), shorter (panic)
+    if rng.chance(1, 3) {
+        let mut k = rng.pick(&keys).to_vec();
+        k.extend_from_slice(&[1, 2, 3]);
+        calls.push(Call::Prf(k, ivs[0], ty(&types[0]), 0));
+    }
+    if rng.chance(1, 6) {
+        calls.push(Call::Prf(rng.pick(&keys)[..(rng.below(16) as usize)].to_vec(), ivs[0], ty(&types[0]), 0));
+    }
+    // repeated calls and shuffled order across instances
+    let mut hist: Vec<(usize, Call)> = vec![];
+    let ninst = 2 + rng.below(3) as usize;
+    for c in calls.iter() {
+        let reps = 1 + rng.below(3);
+        for _ in 0..reps {
+            hist.push((rng.below(ninst as u64) as usize, c.clone()));
+        }
+    }
+    rng.shuffle(&mut hist);
+    let mut evs: Vec<SimpleEvaluator> = (0..ninst).map(|_| SimpleEvaluator::new(None).unwrap()).collect();
+    let mut node_of: BTreeMap<Call, Option<Node>> = BTreeMap::new();
+    let mut results: Vec<Outcome<Value>> = vec![];
+    let mut kept: Vec<(usize, Call)> = vec![];
+    for (i, c) in hist.iter() {
+        let node = node_of
+            .entry(c.clone())
+            .or_insert_with(|| match c {
+                Call::Prf(_, iv, _, ti) => nodes.g.add_node(vec![nodes.key.clone()], vec![], Operation::PRF(*iv, types[*ti].clone())).ok(),
+                Call::Perm(_, iv, n) => nodes.g.add_node(vec![nodes.key.clone()], vec![], Operation::PermutationFromPRF(*iv, *n)).ok(),
+            })
+            .clone();
+        let node = match node {
+            Some(n) => n,
+            None => {
+                out.stat("prf:type-rejected-by-add_node");
+                continue;
+            }
+        };
+        let kv = match c {
+            Call::Prf(k, ..) | Call::Perm(k, ..) => Value::from_bytes(k.clone()),
+        };
+        let r = eval(&mut evs[*i], &node, vec![kv]);
+        out.stat(&format!("prf-call:{}", r.tag()));
+        results.push(r);
+        kept.push((*i, c.clone()));
+    }
+    // ---- native oracle: purity, domain, permutation validity, distinct counters differ
+    let mut first: BTreeMap<(Vec<u8>, u64, String), Outcome<Value>> = BTreeMap::new();
+    for ((_, c), r) in kept.iter().zip(results.iter()) {
+        let (k, iv, what) = match c {
+            Call::Prf(k, iv, tc, _) => (k, *iv, tc.clone()),
+            Call::Perm(k, iv, n) => (k, *iv, format!("perm {}", n)),
+        };
+        let input = json!({"key": k, "iv": iv, "what": what});
+        if k.len() < 16 {
+            if !matches!(r, Outcome::Panic) {
+                out.violation("short-key-not-rejected", input, format!("{:?}", r.tag()));
+            }
+            continue;
+        }
+        // purity is in terms of the 16 key bytes AES sees
+        let pk = (k[..16].to_vec(), iv, what.clone());
+        match first.get(&pk) {
+            None => {
+                first.insert(pk, r.clone());
+            }
+            Some(r0) => {
+                if r0 != r {
+                    out.violation("prf-impure", input.clone(), "same (key, iv, type) gave two different values across instances / orders / repetitions".into());
+                } else {
+                    out.oracle_ok();
+                }
+            }
+        }
+        if let Outcome::Ok(v) = r {
+            match c {
+                Call::Prf(_, _, _, ti) => {
+                    let t = &types[*ti];
+                    let chk = v.check_type(t.clone()).unwrap_or(false);
+                    if !chk || !in_domain(v, t) {
+                        out.violation("prf-out-of-domain", input.clone(), format!("value {} is not a valid encoding of {}", bvalue(v), t));
+                    } else {
+                        out.oracle_ok();
+                    }
+                }
+                Call::Perm(_, _, n) => {
+                    if !is_perm(v, *n) {
+                        out.violation("prf-perm-invalid", input.clone(), format!("not a permutation of 0..{}", n));
+                    } else {
+                        out.oracle_ok();
+                    }
+                }
+            }
+        } else if matches!(r, Outcome::Panic) {
+            out.violation("prf-panics", input.clone(), "PRF evaluation panicked on a 16-byte key".into());
+        }
+    }
+    // different (key, iv), same type, at least 16 random output bytes: values differ
+    // (permutations excluded: n! may be small)
+    let firsts: Vec<(&(Vec<u8>, u64, String), &Outcome<Value>)> = first.iter().collect();
+    for a in 0..firsts.len() {
+        for b in a + 1..firsts.len() {
+            let ((k1, iv1, w1), r1) = firsts[a];
+            let ((k2, iv2, w2), r2) = firsts[b];
+            if w1 == w2 && !w1.starts_with("perm ") && (k1, iv1) != (k2, iv2) {
+                if let (Outcome::Ok(v1), Outcome::Ok(v2)) = (r1, r2) {
+                    if total_bytes(v1) >= 16 {
+                        if v1 == v2 {
+                            out.violation("prf-collision", json!({"key1": k1, "iv1": iv1, "key2": k2, "iv2": iv2, "what": w1}), "distinct (key, iv) gave the same value".into());
+                        } else {
+                            out.oracle_ok();
+                        }
+                    }
+                }
+            }
+        }
+    }
+    if !emit_cases {
+        return;
+    }
+    // ---- correspondence: one case per distinct call ...
+    let mut seen: BTreeSet<Call> = BTreeSet::new();
+    for ((_, c), r) in kept.iter().zip(results.iter()) {
+        if !seen.insert(c.clone()) {
+            continue;
+        }
+        match c {
+            Call::Prf(k, iv, tc, ti) => {
+                let t = &types[*ti];
+                let nbytes = if let Outcome::Ok(v) = r { total_bytes(v) } else { 0 };
+                let Some(k16) = key16(k) else { continue };
+                let tab = table(&[table_entry(&k16, *iv, blocks_for(nbytes, 64))]);
+                let nontrivial = has_ragged_leaf(t) || nbytes > 64 || is_nested(t);
+                out.stat(&format!("prf-bytes:{}", match nbytes { 0 => "0", 1..=16 => "1-16", 17..=64 => "17-64", 65..=192 => "65-192", 193..=448 => "193-448", 449..=960 => "449-960", _ => ">960" }));
+                out.stat(&format!("prf-type:{}", match t { Type::Scalar(_) => "scalar", Type::Array(_, BIT) => "bit-array", Type::Array(_, _) => "array", Type::Vector(_, _) => "vector", Type::Tuple(_) => "tuple", Type::NamedTuple(_) => "named" }));
+                out.case(
+                    "prf_output_value",
+                    format!("prf_output_value {} (prf_new {}) {} {}", tab, key_coq(&k16), iv, tc),
+                    res(r, |v| bvalue(v)),
+                    json!({"key": k, "iv": iv, "type": format!("{}", t), "bytes": nbytes}),
+                    nontrivial,
+                );
+            }
+            Call::Perm(k, iv, n) => {
+                let Some(k16) = key16(k) else { continue };
+                let est = perm_bytes_no_reject(*n) + 64;
+                let tab = table(&[table_entry(&k16, *iv, blocks_for(est, u64::min(512, *n)))]);
+                out.stat(&format!("perm-n:{}", match n { 1 => "1", 2..=16 => "2-16", 17..=256 => "17-256", _ => ">256" }));
+                out.case(
+                    "prf_output_permutation",
+                    format!("prf_output_permutation {} {} (prf_new {}) {} {}", tab, FUEL, key_coq(&k16), iv, n),
+                    res(r, |v| bvalue(v)),
+                    json!({"key": k, "iv": iv, "n": n}),
+                    *n > 1,
+                );
+            }
+        }
+    }
+    // ... and the whole interleaved history through the cache model (small rounds only)
+    if !big {
+        let mut entries: BTreeMap<(Vec<u8>, u64), (u64, u64)> = BTreeMap::new(); // (key16, iv) -> (bytes, initial)
+        for ((_, c), r) in kept.iter().zip(results.iter()) {
+            let (k, iv, need, initial) = match c {
+                Call::Prf(k, iv, _, _) => (k, *iv, if let Outcome::Ok(v) = r { total_bytes(v) } else { 0 }, 64),
+                Call::Perm(k, iv, n) => (k, *iv, perm_bytes_no_reject(*n) + 64, u64::min(512, *n)),
+            };
+            if k.len() < 16 {
+                continue;
+            }
+            let nb = blocks_for(need, initial);
+            let e = entries.entry((k[..16].to_vec(), iv)).or_insert((0, 0));
+            e.0 = u64::max(e.0, nb);
+        }
+        let ents: Vec<String> = entries.iter().map(|((k, iv), (nb, _))| table_entry(&key16(k).unwrap(), *iv, *nb)).collect();
+        let h: Vec<String> = kept
+            .iter()
+            .map(|(i, c)| match c {
+                Call::Prf(k, iv, tc, _) => format!("({}%nat, CallPRF (BBytes {}) {} {})", i, key_coq(k), iv, tc),
+                Call::Perm(k, iv, n) => format!("({}%nat, CallPerm (BBytes {}) {} {})", i, key_coq(k), iv, n),
+            })
+            .collect();
+        let rhs = list(&results, |r| res(r, |v| bvalue(v)));
+        out.stat(&format!("history-len:{}", match kept.len() { 0..=15 => "<=15", 16..=30 => "16-30", _ => ">30" }));
+        out.stat(&format!("history-instances:{}", ninst));
+        out.case(
+            "run_history",
+            format!("run_history {} {} [{}] []", table(&ents), FUEL, h.join("; ")),
+            rhs,
+            json!({"instances": ninst, "calls": kept.len(), "keys": keys.len()}),
+            kept.len() > 1,
+        );
+    }
+}
+
+// ------------------------------------------------------------------------------------ PRNG part
+#[derive(Clone, Debug)]
+enum Op {
+    Bytes(u64),
+    Value(Type),
+    InRange(Option<u64>),
+    Shuffle(u64),
+}
+impl Op {
+    fn coq(&self) -> String {
+        match self {
+            Op::Bytes(n) => format!("OpBytes {}", n),
+            Op::Value(t) => format!("OpValue {}", ty(t)),
+            Op::InRange(None) => "OpInRange None".into(),
+            Op::InRange(Some(m)) => format!("OpInRange (Some {})", m),
+            Op::Shuffle(n) => format!("OpShuffle {}", n),
+        }
+    }
+}
+#[derive(Clone, Debug, PartialEq)]
+enum Obs {
+    Bytes(Vec<u8>),
+    Value(Value),
+    Num(u64),
+}
+fn obs_coq(o: &Obs) -> String {
+    match o {
+        Obs::Bytes(b) => format!("OutBytes {}", list_u8(b)),
+        Obs::Value(v) => format!("OutValue {}", bvalue(v)),
+        Obs::Num(x) => format!("OutNum {}", x),
+    }
+}
+
+/// The moduli classes of the property: powers of two, 2^k +- 1, near 2^32, near 2^63 / 2^64
+/// (rejection probability close to 1/2), small.
+fn pick_modulus(rng: &mut Rng) -> u64 {
+    match rng.below(9) {
+        0 => 1u64 << rng.below(64),
+        1 => (1u64 << (1 + rng.below(63))) + 1,
+        2 => (1u64 << (1 + rng.below(63))) - 1,
+        3 => (1u64 << 32) - 1 - rng.below(3),
+        4 => (1u64 << 32) + rng.below(3),
+        5 => (1u64 << 63) + 1 + rng.below(1000),
+        6 => u64::MAX - rng.below(3),
+        7 => 1 + rng.below(300),
+        _ => 1 + rng.next() % (u64::MAX - 1),
+    }
+}
+fn modulus_class(m: u64) -> &'static str {
+    if m.is_power_of_two() {
+        "2^k"
+    } else if (m - 1).is_power_of_two() {
+        "2^k+1"
+    } else if m == u64::MAX || (m + 1).is_power_of_two() {
+        "2^k-1"
+    } else if m > (1u64 << 63) {
+        ">2^63"
+    } else if m < 1000 {
+        "small"
+    } else {
+        "other"
+    }
+}
+
+fn run_prng_ops(seed: [u8; 16], ops: &[Op]) -> Vec<Outcome<Obs>> {
+    let mut g = PRNG::new(Some(seed)).unwrap();
+    let mut res = vec![];
+    for op in ops {
+        let gm = AssertUnwindSafe(&mut g);
+        let op2 = op.clone();
+        let r = observe(move || {
+            let g = gm;
+            let AssertUnwindSafe(g) = g;
+            match op2 {
+                Op::Bytes(n) => g.get_random_bytes(n as usize).map(Obs::Bytes),
+                Op::Value(t) => g.get_random_value(t).map(Obs::Value),
+                Op::InRange(m) => g.get_random_in_range(m).map(Obs::Num),
+                Op::Shuffle(_) => unreachable!(),
+            }
+        });
+        let stop = !matches!(r, Outcome::Ok(_));
+        res.push(r);
+        if stop {
+            break;
+        }
+    }
+    res
+}
+fn run_evaluator_ops(seed: [u8; 16], ops: &[Op]) -> Vec<Outcome<Obs>> {
+    let c = create_context().unwrap();
+    let g = c.create_graph().unwrap();
+    let mut ev = SimpleEvaluator::new(Some(seed)).unwrap();
+    let mut res = vec![];
+    for op in ops {
+        let node = match op {
+            Op::Value(t) => g.random(t.clone()),
+            Op::Shuffle(n) => g.random_permutation(*n),
+            _ => unreachable!(),
+        };
+        let node = match node {
+            Ok(n) => n,
+            Err(_) => break,
+        };
+        let r = match eval(&mut ev, &node, vec![]) {
+            Outcome::Ok(v) => Outcome::Ok(Obs::Value(v)),
+            Outcome::Err => Outcome::Err,
+            Outcome::Panic => Outcome::Panic,
+        };
+        let stop = !matches!(r, Outcome::Ok(_));
+        res.push(r);
+        if stop {
+            break;
+        }
+    }
+    res
+}
+/// Upper estimate of the bytes a sequence consumes (bounded draws: 8 bytes, expected < 2 rounds).
+fn ops_bytes(ops: &[Op], obs: &[Outcome<Obs>]) -> u64 {
+    let mut total = 0u64;
+    for (op, o) in ops.iter().zip(obs.iter()) {
+        total += match (op, o) {
+            (Op::Bytes(n), _) => *n,
+            (Op::Value(_), Outcome::Ok(Obs::Value(v))) => total_bytes(v),
+            (Op::InRange(_), _) => 16,
+            (Op::Shuffle(n), _) => 16 * n,
+            _ => 0,
+        };
+    }
+    total
+}
+
+fn prng_round(rng: &mut Rng, out: &mut Out, big: bool, emit_cases: bool) {
+    let seed = random_key(rng);
+    let via_evaluator = rng.chance(1, 3);
+    let nops = 2 + rng.below(6);
+    let mut ops: Vec<Op> = vec![];
+    for _ in 0..nops {
+        if via_evaluator {
+            if rng.chance(1, 3) {
+                ops.push(Op::Shuffle(if big { *rng.pick(&[33u64, 64, 100]) } else { 1 + rng.below(12) }));
+            } else {
+                ops.push(Op::Value(prf_type(rng, false)));
+            }
+        } else {
+            match rng.below(5) {
+                0 => ops.push(Op::Bytes(if big { *rng.pick(&[500u64, 511, 512, 513, 1025]) } else { rng.below(40) })),
+                1 => ops.push(Op::Value(prf_type(rng, big))),
+                2 => ops.push(Op::InRange(if rng.chance(1, 8) { None } else { Some(pick_modulus(rng)) })),
+                3 => {
+                    // several draws with one modulus
+                    let m = pick_modulus(rng);
+                    for _ in 0..3 {
+                        ops.push(Op::InRange(Some(m)));
+                    }
+                }
+                _ => ops.push(Op::Bytes(1 + rng.below(9))),
+            }
+        }
+    }
+    let run = |ops: &[Op]| if via_evaluator { run_evaluator_ops(seed, ops) } else { run_prng_ops(seed, ops) };
+    let obs = run(&ops);
+    // ---- oracle: replay, range, domain, permutation validity
+    let obs2 = run(&ops);
+    let input = json!({"seed": seed.to_vec(), "ops": ops.iter().map(|o| o.coq()).collect::<Vec<_>>(), "via": if via_evaluator {"SimpleEvaluator"} else {"PRNG"}});
+    if obs != obs2 {
+        out.violation("prng-replay", input.clone(), "two generators created from the same seed gave different sequences".into());
+    } else {
+        out.oracle_ok();
+    }
+    for (op, o) in ops.iter().zip(obs.iter()) {
+        match (op, o) {
+            (Op::InRange(Some(m)), Outcome::Ok(Obs::Num(x))) => {
+                out.stat(&format!("modulus:{}", modulus_class(*m)));
+                if x >= m {
+                    out.violation("in-range-out-of-range", input.clone(), format!("{} >= {}", x, m));
+                } else {
+                    out.oracle_ok();
+                }
+            }
+            (Op::Value(t), Outcome::Ok(Obs::Value(v))) => {
+                if !v.check_type(t.clone()).unwrap_or(false) || !in_domain(v, t) {
+                    out.violation("prng-out-of-domain", input.clone(), format!("value {} is not a valid encoding of {}", bvalue(v), t));
+                } else {
+                    out.oracle_ok();
+                }
+            }
+            (Op::Shuffle(n), Outcome::Ok(Obs::Value(v))) => {
+                if !is_perm(v, *n) {
+                    out.violation("random-permutation-invalid", input.clone(), format!("not a permutation of 0..{}", n));
+                } else {
+                    out.oracle_ok();
+                }
+            }
+            (Op::Bytes(n), Outcome::Ok(Obs::Bytes(b))) => {
+                if b.len() as u64 != *n {
+                    out.violation("prng-bytes-length", input.clone(), format!("{} bytes for a request of {}", b.len(), n));
+                } else {
+                    out.oracle_ok();
+                }
+            }
+            (_, Outcome::Panic) => out.violation("prng-panics", input.clone(), format!("{} panicked", op.coq())),
+            _ => {}
+        }
+        out.stat(&format!("prng-op:{}:{}", match op { Op::Bytes(_) => "bytes", Op::Value(_) => "value", Op::InRange(_) => "in_range", Op::Shuffle(_) => "shuffle" }, o.tag()));
+    }
+    if !emit_cases {
+        return;
+    }
+    let used = &ops[..obs.len()];
+    let need = ops_bytes(used, &obs) + 512;
+    let tab = table(&[table_entry(&seed, 0, blocks_for(need, 512))]);
+    let crosses = ops_bytes(used, &obs) > 512;
+    out.case(
+        if via_evaluator { "evaluator_random" } else { "prng_observe" },
+        format!("prng_observe {} {} {} [{}]", tab, FUEL, key_coq(&seed), used.iter().map(|o| o.coq()).collect::<Vec<_>>().join("; ")),
+        list(&obs, |o| res(o, |x| format!("({})", obs_coq(x)))),
+        input,
+        crosses || used.iter().any(|o| matches!(o, Op::InRange(Some(_)) | Op::Shuffle(_))) || used.iter().any(|o| matches!(o, Op::Value(t) if has_ragged_leaf(t))),
+    );
+}
+
+pub fn run(tier: &str, seed: u64, out: &mut Out) {
+    let mut rng = Rng::new(seed ^ 0xC15);
+    let (rounds, big_rounds, prng_rounds, emit) = match tier {
+        "thorough" => (120, 36, 600, true),
+        "search" => (600, 60, 3000, false),
+        _ => (14, 5, 60, true),
+    };
+    for _ in 0..rounds {
+        prf_round(&mut rng, out, false, emit);
+    }
+    for _ in 0..big_rounds {
+        prf_round(&mut rng, out, true, emit);
+    }
+    for i in 0..prng_rounds {
+        prng_round(&mut rng, out, i % 6 == 5, emit);
+    }
+}
